@@ -5,6 +5,10 @@
 -/
 import GormModel.Model.StmtCache
 import GormModel.Lemmas.StmtCacheInv
+import GormModel.Lemmas.StmtCacheLeak
+import GormModel.Lemmas.StmtCacheBroadcast
+import GormModel.Lemmas.StmtCacheTransp
+import GormModel.Gen.StmtCacheFacts
 import GormModel.Gen.LockSections
 namespace Gorm
 open SC
@@ -16,8 +20,8 @@ def stepsOf (t n : Nat) (a : Ans := .ok) : List Act := List.replicate n (.thr t 
     views, transactions, Reset/Close), if some operation has not returned then some goroutine can take a step
     (pending driver calls are steps: they return).  Waiters wait only for an entry whose preparer is running, and
     preparers never wait. -/
-theorem C14_deadlock_free (ops : List Op) (nV : Nat) (sched : List Act) :
-    let s := run (init ops nV) sched
+theorem C14_deadlock_free (ops : List Op) (nV : Nat) (cfg : Cfg) (sched : List Act) :
+    let s := run (init ops nV cfg) sched
     (∃ t, t < s.nT ∧ isFin s t = false) → ∃ t a, t < s.nT ∧ (act s (.thr t a)).isSome = true := by
   intro s ⟨t, ht, hf⟩
   by_cases hen : ∃ a, (act s (.thr t a)).isSome = true
@@ -28,22 +32,25 @@ theorem C14_deadlock_free (ops : List Op) (nV : Nat) (sched : List Act) :
       cases hact : act s (.thr t a) with
       | none => rfl
       | some s' => exact absurd ⟨a, by simp [hact]⟩ hen
-    obtain ⟨e, hpc, hprep⟩ := blocked_is_waiter s t ht (opPc_reachable ops nV sched) hf hb
-    have he : e < s.nE := (rng_reachable ops nV sched).2 t e hpc
-    obtain ⟨t0, ht0, hown⟩ := own_reachable ops nV sched e he hprep
+    have hinv := inv1_reachable ops nV cfg sched
+    have hop := hinv.2.2.2
+    obtain ⟨e, hpc, hprep⟩ := blocked_is_waiter s t ht hop hf hb
+    have he : e < s.nE := ((hinv.1.1 t).1 e hpc).1
+    obtain ⟨ht0, hown⟩ := hinv.1.2 e he hprep
+    generalize (s.entries e).owner = t0 at ht0 hown
     refine ⟨t0, .ok, ht0, ?_⟩
     -- an owner is always enabled
     have ht0' : t0 < s.nT := ht0
     simp only [act, ht0', if_true, tstep]
-    cases hop : (s.threads t0).op with
+    cases hop' : (s.threads t0).op with
     | reset v =>
-      rcases opPc_reachable ops nV sched t0 v (Or.inl hop) with h1 | h1
+      rcases hop t0 v (Or.inl hop') with h1 | h1
       · rw [h1] at hown; simp [owns] at hown
       · simp only [isFin] at h1; split at h1
         · rename_i hh; rw [hh] at hown; simp [owns] at hown
         · cases h1
     | close v =>
-      rcases opPc_reachable ops nV sched t0 v (Or.inr hop) with h1 | h1
+      rcases hop t0 v (Or.inr hop') with h1 | h1
       · rw [h1] at hown; simp [owns] at hown
       · simp only [isFin] at h1; split at h1
         · rename_i hh; rw [hh] at hown; simp [owns] at hown
@@ -58,12 +65,12 @@ theorem C14_deadlock_free (ops : List Op) (nV : Nat) (sched : List Act) :
     eviction, Transaction entry overwritten by a non-transaction request — the only steps that log a removal)
     plus one if an entry is cached now.  However many goroutines ask at the same time, a second PrepareContext
     for the same text and generation needs a removal in between. -/
-theorem C14_at_most_once (ops : List Op) (nV : Nat) (sched : List Act) (m : Nat) (q : Text) :
-    let s := run (init ops nV) sched
+theorem C14_at_most_once (ops : List Op) (nV : Nat) (cfg : Cfg) (sched : List Act) (m : Nat) (q : Text) :
+    let s := run (init ops nV cfg) sched
     prepCount s m q = removedCount s m q + (if (s.maps m q).isSome then 1 else 0) ∧
     prepCount s m q ≤ removedCount s m q + 1 := by
   intro s
-  have h := acct_reachable ops nV sched m q
+  have h := (inv1_reachable ops nV cfg sched).2.2.1 m q
   refine ⟨h, ?_⟩
   have h' : prepCount s m q = removedCount s m q + (if (s.maps m q).isSome then 1 else 0) := h
   split at h' <;> omega
@@ -88,6 +95,122 @@ theorem C14_lock_sections_atomic :
        ("PreparedStmtTX.ExecContext", "Lock"), ("PreparedStmtTX.QueryContext", "Lock")] := by
   decide
 
+/-- CLEAN RUN: a generation/text without a recorded removal (no failed prepare, no ErrBadConn eviction, no Transaction
+    entry overwritten) sees at most one `ConnPool.PrepareContext`, however many goroutines asked and in whatever order
+    the scheduler ran them. -/
+theorem C14_single_prepare_clean (ops : List Op) (nV : Nat) (cfg : Cfg) (sched : List Act) (m : Nat) (q : Text) :
+    let s := run (init ops nV cfg) sched
+    removedCount s m q = 0 → prepCount s m q ≤ 1 := by
+  intro s h0
+  have h2 : prepCount s m q ≤ removedCount s m q + 1 := (C14_at_most_once ops nV cfg sched m q).2
+  omega
+
+/-- FAILURE BROADCAST.  After ANY schedule, for every entry `e` whose `PrepareContext` failed:
+    (1) every operation that resolved to `e` — the preparer, which published it, and every goroutine that found it in
+        the map and waited on `e.prepared` — and has returned, returned the preparation error;
+    (2) the preparer is among them; it cannot return anything else;
+    (3) once the preparer is past its delete section (`prepared` closed, or about to close it), `e` is not the entry
+        cached under its text in the map of the struct it was published through: the failure is not cached.
+    Needs owner uniqueness and the entry-shape invariant (`Shape`), the ghost/operation agreement (`EOp`) and `FB`. -/
+theorem C14_failure_broadcast (ops : List Op) (nV : Nat) (cfg : Cfg) (sched : List Act) (hw : wfOps ops nV) (e : Nat) :
+    let s := run (init ops nV cfg) sched
+    e < s.nE → (s.entries e).err = true →
+      (∀ t r, (s.threads t).ent = some e → result s t = some r → r = .prepErr) ∧
+      (s.threads (s.entries e).owner).ent = some e ∧
+      ((s.entries e).prepared = true → cachedAt s (s.entries e).view (s.entries e).text ≠ some e) := by
+  intro s he herr
+  have hI : Inv2 s ∧ FB s := by
+    apply run_inv (fun s => Inv2 s ∧ FB s) (fun s s' h hs => ⟨step_inv2 s s' h.1 hs, step_fb s s' h.2 h.1.1.1 h.1.1.2.1 h.1.2.1 hs⟩)
+    refine ⟨init_inv2 ops nV cfg hw, ?_, ?_⟩
+    · intro e he; simp [init] at he
+    · intro e he; simp [init] at he
+  obtain ⟨h2, hF⟩ := hI
+  refine ⟨fun t r hent hres => ?_, hF.1 e he, fun hp => hF.2 e he herr (Or.inl hp)⟩
+  have hT := h2.1.1.1 t
+  unfold result at hres
+  split at hres
+  next r' hpc =>
+    have hr : r' = r := by simpa using hres
+    rw [← hr]
+    exact ((hT.2.2.2.2.2.2.2.2 r' hpc e hent).2.2).mp herr
+  next => cases hres
+
+/-- non-vacuity: goroutine 0's prepare fails while goroutine 1 waits for it; both return the preparation error and the
+    entry is gone from the map -/
+example : (let s := run (init [.use 0 0 false, .use 0 0 false]) (stepsOf 0 2 ++ stepsOf 1 1 ++ [.thr 0 .err] ++ stepsOf 0 2 ++ stepsOf 1 1)
+    (s.entries 0).err = true ∧ result s 0 = some .prepErr ∧ result s 1 = some .prepErr ∧ s.maps 0 0 = none) := by decide
+
+/-- LEAK FREEDOM, partial form (holds for the code with or without the delete guards): for any program whose
+    operations go through declared structs and ANY schedule, at quiescence (all operations returned, no closer
+    goroutine pending) every statement prepared on the pool is closed or is still the entry cached under its text in
+    the map of some struct — provided no `delete(db.Stmts, query)` removed ANOTHER goroutine's entry (the negation
+    of the F14b pattern). -/
+theorem C14_closed_eventually_partial (ops : List Op) (nV : Nat) (cfg : Cfg) (sched : List Act) (hw : wfOps ops nV) :
+    let s := run (init ops nV cfg) sched
+    quiescent s → foreignRemovals s = 0 → NoLeak s := by
+  intro s hq hf
+  exact noLeak_of_inv s (inv2_reachable ops nV cfg hw sched) hq hf
+
+/-- LEAK FREEDOM, full statement, for the code whose deletes are identity-guarded (`cur == &cacheStmt` in prepare's
+    error branch, `cur.Stmt == stmt.Stmt` in the ErrBadConn branches): no hypothesis about removals — with the guards
+    a delete never removes a foreign entry (`NF`), so at quiescence every statement the cache prepared and that no
+    struct's current map references any more is closed. -/
+theorem C14_closed_eventually (ops : List Op) (nV : Nat) (cfg : Cfg) (sched : List Act) (hw : wfOps ops nV)
+    (hg : cfg.guardFail = true ∧ cfg.guardEvict = true) :
+    let s := run (init ops nV cfg) sched
+    quiescent s → NoLeak s := by
+  intro s hq
+  have hI := inv2_reachable ops nV cfg hw sched
+  have hcfg : s.cfg = cfg := by
+    have : (fun s : St => s.cfg = cfg) (run (init ops nV cfg) sched) :=
+      run_inv (fun s => s.cfg = cfg) (fun s s' h hs => by rw [(step_ghost s s' hs).2.2.2.1]; exact h) _ sched rfl
+    exact this
+  have hnf : foreignRemovals s = 0 := hI.2.2.2.2.2.2.2 (by rw [hcfg]; exact hg.1) (by rw [hcfg]; exact hg.2)
+  exact noLeak_of_inv s hI hq hnf
+
+/-- non-vacuity of the guarded theorem's hypotheses and of quiescence: the F14b schedule on the guarded code ends
+    quiescent with nothing leaked -/
+def guardedRun : St :=
+  run (init [.use 0 0 true, .use 0 0 false, .close 0] 1 { guardFail := true, guardEvict := true })
+    (stepsOf 0 2 ++ stepsOf 1 2 ++ [.thr 0 .err] ++ stepsOf 0 2 ++ stepsOf 1 5 ++ stepsOf 2 1 ++ [.closeE 1])
+example : (let s := guardedRun
+    quiescentB s = true ∧ result s 1 = some .rows ∧ leakedB s 0 = false ∧ foreignRemovals s = 0) := by decide
+
+/-- TRANSPARENCY, partial form (outside the F14a / F14c patterns).  In every state reachable by any schedule:
+    (1) a goroutine whose wait is over on a successfully prepared entry finds a statement there — the nil `*sql.Stmt`
+        dereference (`Res.nilStmt`) is unreachable;
+    (2) a pool statement is closed only by a closer that a Reset/Close spawned for its entry or by the `go stmt.Close()`
+        of an ErrBadConn eviction: as long as no Reset/Close has been executed and no operation has returned
+        ErrBadConn, a non-transaction operation that holds a statement executes it (it does not get
+        "sql: statement is closed"), whatever the driver answers.
+    The hypotheses of (2) are exactly the negation of F14a (Reset/Close through another struct) and F14c (Reset of the
+    own struct / eviction by another goroutine). -/
+theorem C14_transparent_partial (ops : List Op) (nV : Nat) (cfg : Cfg) (sched : List Act) (hw : wfOps ops nV) :
+    let s := run (init ops nV cfg) sched
+    (∀ t e, (s.threads t).pc = .waiting e → (s.entries e).prepared = true → (s.entries e).err = false →
+      ∃ h, (s.entries e).handle = some h) ∧
+    (∀ t v q e h a, t < s.nT → (s.threads t).op = .use v q false → (s.threads t).pc = .ready e h →
+      ¬ rcDone s → ¬ badDone s → act s (.thr t a) = some (setPc s t (.using e h))) := by
+  intro s
+  obtain ⟨h2, h3⟩ := inv3_reachable ops nV cfg hw sched
+  obtain ⟨hES, hRC, hBC, hCL, hUT⟩ := h3
+  refine ⟨fun t e hpc hp herr => hES e ((h2.1.1.1 t).1 e hpc).1 hp herr, ?_⟩
+  intro t v q e h a ht hop hpc hnr hnb
+  have h7 := (h2.1.1.1 t).2.2.2.2.2.2.1 e h (Or.inl hpc)
+  have htx : (s.entries e).tx = false := (hUT t e h7.2.2.2.2).2 v q hop
+  have hh := h2.2.2.2.1.2 e h h7.1 h7.2.2.2.1
+  have hh1 := h2.2.2.2.1.1 h hh.1
+  rw [hh.2] at hh1
+  have hhtx : (s.handles h).tx = false := by rw [← hh1.2.2.1]; exact htx
+  have hcl : (s.handles h).closed = false := by
+    cases hc : (s.handles h).closed with
+    | false => rfl
+    | true =>
+      rcases hCL h hh.1 hhtx hc with c | c
+      · exact absurd (hBC h hh.1 c) hnb
+      · rw [hh.2] at c; exact absurd (hRC e h7.1 c) hnr
+  simp [act, ht, tstep, hop, hpc, stepUse, hcl]
+
 /-! ### findings: concrete schedules on which the full statement fails (kernel-checked) -/
 
 /-- F14b witness 1 (late delete after a FAILED prepare): a transaction prepares text 0; a non-transaction request
@@ -105,12 +228,63 @@ def cexLeakBadConn : List Op × List Act :=
    stepsOf 0 6 ++ stepsOf 1 3 ++ [.thr 0 .bad] ++ stepsOf 0 1 ++ [.closeH 0] ++ stepsOf 2 7 ++
    [.thr 1 .bad] ++ stepsOf 1 1 ++ stepsOf 3 1)
 
+/-- F14b on the UNGUARDED code: whichever of the two guards is missing, the corresponding schedule ends quiescent with
+    a statement that is neither closed nor reachable through any struct's map (and exactly one foreign removal). -/
 theorem C14_closed_eventually_counterexample :
-    (let s := run (init cexLeakFail.1) cexLeakFail.2
+    (∀ b : Bool, let s := run (init cexLeakFail.1 1 { guardFail := false, guardEvict := b }) cexLeakFail.2
      quiescentB s = true ∧ result s 1 = some .rows ∧ leakedB s 0 = true ∧ foreignRemovals s = 1) ∧
-    (let s := run (init cexLeakBadConn.1) cexLeakBadConn.2
+    (∀ b : Bool, let s := run (init cexLeakBadConn.1 1 { guardFail := b, guardEvict := false }) cexLeakBadConn.2
      quiescentB s = true ∧ result s 2 = some .rows ∧ leakedB s 1 = true ∧ foreignRemovals s = 1) := by
+  constructor <;> intro b <;> cases b <;> decide
+
+/-- the regenerated table of `delete(db.Stmts, query)` sites has exactly the five sites the model has (prepare's error
+    branch and the four ErrBadConn branches), on either tree -/
+theorem C14_delete_sites :
+    Gen.deleteSites.map (·.fn) =
+      ["PreparedStmtDB.prepare", "PreparedStmtDB.ExecContext", "PreparedStmtDB.QueryContext",
+       "PreparedStmtTX.ExecContext", "PreparedStmtTX.QueryContext"] := by
   decide
+
+/-- WHAT HOLDS FOR THE CURRENT SOURCE TREE, decided by the regenerated delete-site facts (`genCfg`): either both
+    kinds of delete are identity-guarded and leak freedom holds in full, or one is not and the F14b schedule leaks on
+    this very configuration while leak freedom still holds outside the F14b pattern. -/
+theorem C14_closed_eventually_current_tree :
+    (genCfg.guardFail = true ∧ genCfg.guardEvict = true ∧
+      ∀ (ops : List Op) (nV : Nat) (sched : List Act), wfOps ops nV →
+        quiescent (run (init ops nV genCfg) sched) → NoLeak (run (init ops nV genCfg) sched))
+    ∨ ((genCfg.guardFail = false ∨ genCfg.guardEvict = false) ∧
+      (∃ (ops : List Op) (sched : List Act) (h : Nat), wfOps ops 1 ∧
+        quiescentB (run (init ops 1 genCfg) sched) = true ∧ leakedB (run (init ops 1 genCfg) sched) h = true) ∧
+      (∀ (ops : List Op) (nV : Nat) (sched : List Act), wfOps ops nV →
+        quiescent (run (init ops nV genCfg) sched) → foreignRemovals (run (init ops nV genCfg) sched) = 0 →
+        NoLeak (run (init ops nV genCfg) sched))) := by
+  have hpart : ∀ (ops : List Op) (nV : Nat) (sched : List Act), wfOps ops nV →
+      quiescent (run (init ops nV genCfg) sched) → foreignRemovals (run (init ops nV genCfg) sched) = 0 →
+      NoLeak (run (init ops nV genCfg) sched) :=
+    fun ops nV sched hw => C14_closed_eventually_partial ops nV genCfg sched hw
+  have hwf1 : wfOps cexLeakFail.1 1 := by
+    intro v q tx hm; simp [cexLeakFail] at hm; omega
+  have hwf2 : wfOps cexLeakBadConn.1 1 := by
+    intro v q tx hm; simp [cexLeakBadConn] at hm; omega
+  cases hcfg : genCfg with
+  | mk a b =>
+    rw [hcfg] at hpart
+    cases a with
+    | false =>
+      right
+      refine ⟨Or.inl rfl, ⟨cexLeakFail.1, cexLeakFail.2, 0, hwf1, ?_⟩, hpart⟩
+      have := C14_closed_eventually_counterexample.1 b
+      exact ⟨this.1, this.2.2.1⟩
+    | true =>
+      cases b with
+      | false =>
+        right
+        refine ⟨Or.inr rfl, ⟨cexLeakBadConn.1, cexLeakBadConn.2, 1, hwf2, ?_⟩, hpart⟩
+        have := C14_closed_eventually_counterexample.2 true
+        exact ⟨this.1, this.2.2.1⟩
+      | true =>
+        left
+        exact ⟨rfl, rfl, fun ops nV sched hw => C14_closed_eventually ops nV _ sched hw ⟨rfl, rfl⟩⟩
 
 /-- F14a witness (stale session-level struct): view 1 (a `Session(PrepareStmt)` handle) prepares text 0 and Resets;
     the closers close the statement but the struct behind view 0 still points to the OLD map, so its next
